@@ -7,7 +7,8 @@ import ScrapliModel.Generated.Consts
 Two layers. (1) Call-site table regenerated from the source on every run (`Generated/LogSites.lean`,
 syntactic taint rule in `go/cmd/extract/gen_c11.go`): no logger call takes a credential; every
 write of a credential passes `true` as its redaction flag; the escalation event that carries the
-secondary secret hides its input; the ssh argv builder does not mention a credential.
+secondary secret hides its input; the ssh argv builder does not mention a credential; no error
+construction site formats a secret-bearing value (`gen_c11_errs.go`: error values are logged).
 (2) Trace theorem: for every session trace in which a marker byte of the secret occurs only in
 writes flagged redacted, no user-logger message and no channel-log byte contains it.
 -/
@@ -48,6 +49,50 @@ theorem secret_events_hidden : ∀ e ∈ eventLits, e.inputTaint ≠ "" → e.hi
 
 theorem secret_event_exists : (eventLits.any fun e => e.inputTaint == "AuthSecondary") = true := by
   decide +kernel
+
+/-! ## Error values (the logger is handed `err`)
+
+`generic/network Driver.Open` and `Close` log the error an on-open / on-close function returned,
+the channel and the transports log the errors of the layer below: a secret that is formatted into
+an ERROR VALUE reaches the user's logger through a call whose arguments look clean. The translator
+therefore lists every error construction site (`fmt.Errorf` / `errors.New` incl. every `%w`
+wrapping, the results of `Error()` methods, literals of error types) of every non-test package with
+its secret-bearing arguments: credentials and whole values of the structs that hold them, an
+interactive event's `ChannelInput` (whether hidden or not), a platform on-X operation's `input`
+(whether its `redacted` flag is set, known or not), locals / parameters / results derived from
+them (rule: `go/cmd/extract/gen_c11_errs.go`). -/
+
+/-- no error construction site anywhere in the library formats a secret-bearing value -/
+theorem error_sites_clean : ∀ s ∈ errSites, s.tainted = [] := by decide +kernel
+
+/-- the table is not vacuous: it has the sites of the code whose errors are logged — the platform
+on-X operations, the channel (authentication, interactive), both drivers and the transports -/
+theorem error_sites_cover :
+    40 ≤ errSites.length ∧
+    2 ≤ (errSites.filter fun s => s.file == "platform/onx.go").length ∧
+    (errSites.any fun s => s.file == "channel/auth.go") = true ∧
+    (errSites.any fun s => s.file == "channel/sendinteractive.go") = true ∧
+    (errSites.any fun s => s.file == "driver/network/acquirepriv.go") = true ∧
+    (errSites.any fun s => s.file == "driver/generic/sendwithcallbacks.go") = true ∧
+    (errSites.any fun s => s.file == "transport/standard.go") = true ∧
+    (errSites.any fun s => s.kind == "Error()") = true ∧
+    (errSites.any fun s => s.kind == "lit:OperationError") = true := by decide +kernel
+
+/-- why the obligation above matters: error values do reach the user's logger — both drivers log
+the error of their on-open and of their on-close function -/
+theorem error_values_are_logged :
+    2 ≤ (errLogSites.filter fun s => s.file == "driver/generic/driver.go").length ∧
+    2 ≤ (errLogSites.filter fun s => s.file == "driver/network/driver.go").length := by
+  decide +kernel
+
+/-- under the extended rule too, no logger call takes a secret-bearing argument (an event's input,
+an on-X operation's input, a struct that holds a credential, anything derived from them) -/
+theorem log_sites_no_hidden_input : ∀ s ∈ logSitesExt, s.tainted = [] := by decide +kernel
+
+/-- both passes of the translator see the same logger calls -/
+theorem log_sites_ext_same_calls :
+    logSitesExt.map (fun s => (s.file, s.line, s.kind)) =
+    logSites.map (fun s => (s.file, s.line, s.method)) := by decide +kernel
 
 /-- the system transport's argv builder mentions no credential -/
 theorem argv_builder_clean : argvBuilderMentions = [] := by decide
